@@ -447,13 +447,13 @@ func (c *FnCtx) havocModItem(st *State, env *SpecEnv, m ModItem, preHeap map[str
 			c.errs = append(c.errs, "modifies: "+err.Error())
 			return
 		}
-		pt, ok := obj.T.Underlying().(*types.Pointer)
+		owner, ok := fieldOwner(obj)
 		if !ok {
 			c.errs = append(c.errs, "modifies: "+m.Expr.String()+" is not a pointer")
 			return
 		}
-		key := typeName(pt.Elem())
-		ft, ghost := c.fieldType(pt.Elem(), m.Name)
+		key := typeName(owner)
+		ft, ghost := c.fieldType(owner, m.Name)
 		if ft == nil {
 			c.errs = append(c.errs, "modifies: no field "+m.Name)
 			return
